@@ -1,8 +1,125 @@
-/- Driver for C15 (stub). -/
-import ControlModel.Basic
+/- Driver for C15: line = "template<TAB>implObs"; see harness/props/c15.
+
+   template := role                                  (the root, an aggregator)
+   role     := (A hdr role*) | (T hdr (field*) crit) | (C hdr (field*) crit) | (I range var role)
+   hdr      := (name enabled ((k field)*) ((k field)*) ((k v)*) ((k field)*) ((k field)*) ((k field)*))
+                 name enabled defaults     vars         uvars    constraints  binds        connects
+   field    := (part*)     part := (t text) | (s se) | (b be)
+   se       := (lit s) | (var x)
+   be       := (eq se se) | (ne se se) | (and be be) | (or be be) | (not be) | (const 0|1)
+   range    := (R field field) | (L field)
+
+   implObs  := (all X) | (diff X0 … X7)      X := err | none | tree
+   model answers (all X).
+-/
+import ControlModel.Model.Load
+import ControlModel.Spec.C15
 
 namespace Driver.C15
+open Load
 
-def processLine (_line : String) : String := "UNIMPLEMENTED\t0\t-"
+def parseSE : SExp → Option SE
+  | .list [.atom "lit", .atom s] => some (.lit s)
+  | .list [.atom "var", .atom x] => some (.var x)
+  | _ => none
+
+partial def parseBE : SExp → Option BE
+  | .list [.atom "eq", a, b] => do pure (.eq (← parseSE a) (← parseSE b))
+  | .list [.atom "ne", a, b] => do pure (.ne (← parseSE a) (← parseSE b))
+  | .list [.atom "and", a, b] => do pure (.and (← parseBE a) (← parseBE b))
+  | .list [.atom "or", a, b] => do pure (.or (← parseBE a) (← parseBE b))
+  | .list [.atom "not", a] => do pure (.not (← parseBE a))
+  | .list [.atom "const", c] => do pure (.const (← c.bool?))
+  | _ => none
+
+def parsePart : SExp → Option Part
+  | .list [.atom "t", .atom s] => some (.text s)
+  | .list [.atom "s", e] => (parseSE e).map .str
+  | .list [.atom "b", e] => (parseBE e).map .bool
+  | _ => none
+
+def parseField (s : SExp) : Option Field := do (← s.list?).mapM? parsePart
+
+def parseKF (s : SExp) : Option (List (String × Field)) := do
+  (← s.list?).mapM? fun
+    | .list [.atom k, f] => do pure (k, ← parseField f)
+    | _ => none
+
+def parseKV (s : SExp) : Option Env := do
+  (← s.list?).mapM? fun
+    | .list [.atom k, .atom v] => some (k, v)
+    | _ => none
+
+def parseHdr : SExp → Option Hdr
+  | .list [n, e, d, v, u, c, b, co] => do
+    pure { name := ← parseField n, enabled := ← parseField e, defaults := ← parseKF d, vars := ← parseKF v,
+           uvars := ← parseKV u, cons := ← parseKF c, binds := ← parseKF b, connects := ← parseKF co }
+  | _ => none
+
+def parseRange : SExp → Option RangeT
+  | .list [.atom "R", b, e] => do pure (.fromTo (← parseField b) (← parseField e))
+  | .list [.atom "L", f] => do pure (.list (← parseField f))
+  | _ => none
+
+mutual
+partial def parseRole (s : SExp) (next : Tmpl) : Option Tmpl :=
+  match s with
+  | .list (.atom "A" :: h :: kids) => do pure (.agg (← parseHdr h) (← parseRoles kids) next)
+  | .list [.atom "T", h, .list xs, c] => do pure (.task (← parseHdr h) (← xs.mapM? parseField) (← c.bool?) next)
+  | .list [.atom "C", h, .list xs, c] => do pure (.call (← parseHdr h) (← xs.mapM? parseField) (← c.bool?) next)
+  | .list [.atom "I", r, .atom v, b] => do pure (.iter (← parseRange r) v (← parseRole b .nil) next)
+  | _ => none
+partial def parseRoles : List SExp → Option Tmpl
+  | [] => some .nil
+  | r :: rest => do parseRole r (← parseRoles rest)
+end
+
+/-- Canonical form of a Go map: first binding per key, sorted by key. -/
+def canonEnv (e : Env) : SExp :=
+  let dedup := e.foldl (fun acc (kv : String × String) => if acc.any (fun x => x.1 == kv.1) then acc else acc ++ [kv]) []
+  let sorted := dedup.mergeSort (fun a b => a.1 < b.1 || a.1 == b.1)
+  .list (sorted.map fun (k, v) => .list [.atom k, .atom v])
+
+def listEnv (e : Env) : SExp := .list (e.map fun (k, v) => .list [.atom k, .atom v])
+
+def infoSx (i : Info) : SExp :=
+  .list [.atom i.name, .atom i.enabled, canonEnv i.ownD, canonEnv i.ownV, listEnv i.cons, listEnv i.binds,
+         listEnv i.connects, canonEnv i.stack]
+
+partial def treeSx : Tree → List SExp
+  | .nil => []
+  | .agg i k n => .list (.atom "A" :: infoSx i :: treeSx k) :: treeSx n
+  | .task i x c n => .list [.atom "T", infoSx i, .list (x.map .atom), SExp.ofBool c] :: treeSx n
+  | .call i x c n => .list [.atom "C", infoSx i, .list (x.map .atom), SExp.ofBool c] :: treeSx n
+  | .iter k n => .list (.atom "I" :: treeSx k) :: treeSx n
+
+def loadedSx : Loaded → SExp
+  | .error => .atom "err"
+  | .none => .atom "none"
+  | .tree t => match treeSx t with
+    | [x] => x
+    | xs => .list (.atom "forest" :: xs)
+
+def processLine (line : String) : String :=
+  match SExp.fields line with
+  | [inp, impl] =>
+    match (SExp.parse inp).bind (fun s => parseRole s .nil) with
+    | some t =>
+      let o := proc {} [] t
+      let model := loadedSx o.loaded
+      let modelStr := toString (SExp.list [.atom "all", model])
+      -- Spec on what the implementation reported: all eight settings agree and the common
+      -- result is what the property demands (compared in canonical text form).
+      let want := toString (SExp.list [.atom "all", loadedSx (idealLoad t)])
+      let spec := impl == want
+      let hyp :=
+        if spec then "-"
+        else if o.ev.masked then "enabled_error_masked"
+        else if o.ev.iterDrop then "iterator_enabled_expr"
+        else if o.ev.hollow then "hollow_iterator"
+        else "-"
+      s!"{modelStr}\t{if spec then 1 else 0}\t{hyp}"
+    | none => "BADINPUT\t0\t-"
+  | _ => "BADLINE\t0\t-"
 
 end Driver.C15
